@@ -151,6 +151,7 @@ def register(E):
 
     I['@verifPatchClock'] = lambda E, a: (lambda E2, a2: None)
     I['@verifClockReadings'] = lambda E, a: E.clock_count
+    I['@verifClockReadingAt'] = lambda E, a: E.clock_all[E.conc_int(a[0], 64, True)]
     I['@verifClockLast'] = lambda E, a: E.clock_last if E.clock_last is not None else 0
 
     def v_rungor(E, args):
@@ -956,6 +957,7 @@ def register(E):
             E.assume(E.cmp_int('>=', v, E.clock_last, 64, False))
         E.clock_last = v
         E.clock_count += 1
+        E.clock_all.append(v)
         return v
     if opt.get('clock_stub', True):
         I['time.Since'] = lambda E, a: time_since_ns(E)
